@@ -125,7 +125,7 @@ theorem C11_cancel_closes (cfg : Cfg) (s : St) (u : Nat)
     (step cfg s (.run (.U u))).closed = true := by
   rcases hst with hst | ⟨hst, hv⟩
   · have e : step cfg s (.run (.U u)) = enterClose cfg
-        (({ s with imm := none, vres := none, rcvBusy := false, gone := s.gone ++ s.vres.toList.map (fun n => (n, false)) } : St).setStatus (.U u) .ready)
+        (({ s with imm := none, vres := none, rcvBusy := false, queue := s.vres.toList ++ s.queue } : St).setStatus (.U u) .ready)
         (.U u) (.userTail u .cancelled) := by
       simp [step, runnable, hst, stepRun, hp, hq]
     rw [e]; exact enterClose_closed _ _ _ _
